@@ -33,6 +33,16 @@ Definition merge_at (q : Z) (c : sclass) (e : ebs) : ebs :=
   if q =? 0 then (merge c (fst e), snd e) else if q =? 1 then (fst e, merge c (snd e)) else e.
 Definition merge2 (r e : ebs) : ebs := (merge (fst r) (fst e), merge (snd r) (snd e)).
 
+(* a bit-field is INTEGER in every eightbyte it touches (gcc classify_argument: "for (i = first;
+   i < last + 1; i++) classes[i] = merge_classes (X86_64_INTEGER_CLASS, classes[i])"); it is at most
+   64 bits wide, so that is the eightbyte of its first bit and, if different, of its last bit.  Only
+   an unnamed bit-field of an under-aligned member aggregate can touch two. *)
+Definition merge_span (bit w : Z) (e : ebs) : ebs :=
+  let q0 := bit / 64 in
+  let q1 := (bit + w - 1) / 64 in
+  let e1 := merge_at q0 INTEGER e in
+  if q1 =? q0 then e1 else merge_at q1 INTEGER e1.
+
 (* step 5, post merger cleanup (no SSEUP can arise): (a) MEMORY anywhere => MEMORY,
    (b) X87UP not preceded by X87 => MEMORY *)
 Definition cleanup (e : ebs) : option ebs :=
@@ -55,8 +65,7 @@ Definition sv_level (rec : ty -> Z -> ebs -> option ebs) (base : Z) :=
         match mk with
         | MBits w _ =>
             (* bit-fields are INTEGER; zero-width bit-fields are ignored *)
-            level ms' rs' (if w =? 0 then e
-                           else merge_at (((base + m_off r) * 8 + m_bit r) / 64) INTEGER e)
+            level ms' rs' (if w =? 0 then e else merge_span ((base + m_off r) * 8 + m_bit r) w e)
         | _ => match rec mt (base + m_off r) e with
                | None => None
                | Some e' => level ms' rs' e'
